@@ -29,10 +29,20 @@ class Ctx:
             return os.environ["SS_CONFIGS"].split(",")
         return list(factsmod.THOROUGH_CONFIGS if self.tier == "thorough" else factsmod.QUICK_CONFIGS)
 
-    def facts(self, config):
-        if config not in self._facts:
-            self._facts[config] = Facts(factsmod.load(config))
-        return self._facts[config]
+    def facts(self, config, raw=False):
+        """the fact base of one feature configuration, normalised against the confirmed tree (ssrules/normalise.py): calls
+        to crate-local functions that did not exist on that tree are inlined into their (known) callers.  `raw=True` gives
+        the functions as compiled (whole-crate censuses that must see every function exactly once)."""
+        key = (config, raw)
+        if key not in self._facts:
+            data = factsmod.load(config)
+            if not raw:
+                from . import normalise
+                n, m = normalise.apply(data)
+                if n:
+                    self.notes.append("%s: normalised: %d call(s) to %d function(s) unknown on the confirmed tree were inlined into their callers" % (config, n, m))
+            self._facts[key] = Facts(data)
+        return self._facts[key]
 
     # -- recording ------------------------------------------------------------------------
     def ok(self, rule, key, detail="", config=None, where=None, nontrivial=True):
